@@ -18,7 +18,7 @@ theorem C06_unmarshal_prefix_errors (env : Env) (hE : EnvOk env) (n : Nat) (v : 
   cases v with
   | scalar w x =>
     simp only [wt] at h
-    rcases h with ⟨_, h | ⟨h, _⟩ | ⟨h, _⟩ | ⟨h, _⟩ | ⟨h, _⟩⟩ <;> cases h
+    rcases h with ⟨_, ⟨h, _⟩ | ⟨h, _⟩ | ⟨h, _⟩ | ⟨h, _⟩ | ⟨h, _⟩⟩ <;> cases h
   | str bs => simp only [wt] at h; cases h.1
   | guid bs => simp only [wt] at h; cases h.1
   | arr vs => simp only [wt] at h; obtain ⟨_, h, _⟩ := h; cases h
@@ -103,7 +103,7 @@ theorem C06_decode_prefix_not_ok (env : Env) (hE : EnvOk env) (n : Nat) (v : Val
               simp only [wt] at h; obtain ⟨n', _, _, hn', hn2, _⟩ := h; cases hn'; rw [hn] at hn2; cases hn2
             | scalar _ _ =>
               simp only [wt] at h
-              rcases h with ⟨_, h | ⟨h, _⟩ | ⟨h, _⟩ | ⟨h, _⟩ | ⟨h, _⟩⟩ <;> cases h
+              rcases h with ⟨_, ⟨h, _⟩ | ⟨h, _⟩ | ⟨h, _⟩ | ⟨h, _⟩ | ⟨h, _⟩⟩ <;> cases h
             | str _ => simp only [wt] at h; cases h.1
             | guid _ => simp only [wt] at h; cases h.1
             | arr _ => simp only [wt] at h; obtain ⟨_, h, _⟩ := h; cases h
